@@ -93,7 +93,7 @@ def run(ctx):
     conclude(ctx, ok and ok_d, dis, search=lambda: (targeted_search(ctx, MH, pred_hg, [d for d in dis if d not in dis_d and d not in dis_c], hist, n=ctx.n(1500, 20000)),
                                                     targeted_search(ctx, MD, pred_dhg, dis_d, hist_d, n=ctx.n(800, 10000)),
                                                     run_provenance(ctx, ctx.n(1500, 20000))))
-    ctx.assumptions = ["IDs restricted to int/str/tuple; numpy integer ids are converted by the library itself",
+    ctx.assumptions = ["node labels generated: int (incl. negative, colliding in small hash tables) and str, mixed; edge IDs generated: int (incl. 10**30 and 10**309), str, and the tuple IDs that merge_duplicate_edges(rename='tuple') creates; None as a malformed ID. Tuple NODE labels are in the model's domain but are not generated: the list formats of add_edges_from / add_nodes_from read a leading tuple as (members, id) / (node, attrs) (DESIGN 13.6); bool / float / numpy IDs only in the C04 provenance predicate",
                        "directed and simplicial classes are covered by the provenance predicate on the implementation; their Lean models "
                        "are added when the C02/C03 models land"]
     return finish(ctx, trusted_base=TRUSTED_COMMON)
